@@ -3,6 +3,7 @@ package main
 // Translation of contract expressions (Go expression syntax + builtins) to SMT.
 
 import (
+	"go/constant"
 	"fmt"
 	"go/ast"
 
@@ -131,6 +132,18 @@ func (c *Ctx) tr(x ast.Expr) Val {
 			}
 			if v, ok := c.E.globalByName(c, x.Name); ok {
 				return v
+			}
+			// an integer constant of the function's package
+			if c.E.fn != nil {
+				pkg := c.E.fn.Pkg
+				if pkg == nil && c.E.fn.Parent() != nil {
+					pkg = c.E.fn.Parent().Pkg
+				}
+				if pkg != nil {
+					if k, ok := pkg.Pkg.Scope().Lookup(x.Name).(*types.Const); ok && k.Val().Kind() == constant.Int {
+						return ival(k.Val().ExactString())
+					}
+				}
 			}
 		}
 		c.fail(x, "unknown identifier %s", x.Name)
